@@ -16,8 +16,11 @@ import (
 	"crypto/elliptic"
 	"crypto/rand"
 	"crypto/tls"
+	"crypto/x509"
+	"crypto/x509/pkix"
 	"fmt"
 	"io"
+	"math/big"
 	"strings"
 	"sync"
 	"testing"
@@ -164,6 +167,25 @@ func vfStolenChain(chain tls.Certificate) tls.Certificate {
 	return tls.Certificate{Certificate: chain.Certificate, Leaf: chain.Leaf, PrivateKey: vfLyingSigner{pub: victim.Public(), real: k}}
 }
 
+// vfOwnLeafPlusVictimCert: a credential the rogue can really use (its own self-signed certificate, carrying the
+// victim's names, and its own key) followed by the victim's genuine certificate: every check that looks at
+// "a certificate of the chain" instead of the leaf is offered something valid to look at.
+func vfOwnLeafPlusVictimCert(victim tls.Certificate, dns string) tls.Certificate {
+	k, _ := ecdsa.GenerateKey(elliptic.P256(), rand.Reader)
+	tmpl := &x509.Certificate{
+		SerialNumber: big.NewInt(777), Subject: pkix.Name{CommonName: "vf-rogue-selfsigned"}, DNSNames: []string{dns},
+		NotBefore: time.Date(1999, 6, 1, 0, 0, 0, 0, time.UTC), NotAfter: time.Date(2099, 1, 1, 0, 0, 0, 0, time.UTC),
+		KeyUsage: x509.KeyUsageDigitalSignature, ExtKeyUsage: []x509.ExtKeyUsage{x509.ExtKeyUsageServerAuth, x509.ExtKeyUsageClientAuth},
+	}
+	der, err := x509.CreateCertificate(rand.Reader, tmpl, tmpl, k.Public(), k)
+	if err != nil {
+		panic(err)
+	}
+	leaf, _ := x509.ParseCertificate(der)
+
+	return tls.Certificate{Certificate: [][]byte{der, victim.Certificate[0]}, PrivateKey: k, Leaf: leaf}
+}
+
 type vfC03Row struct {
 	Name    string
 	Ver     string // 12 | 13
@@ -216,6 +238,7 @@ func vfC03Rows() []vfC03Row {
 						add("omit-certificate-and-verify", "reject")
 					}
 					if kind == "ecdsa" {
+						add("own-selfsigned-leaf-plus-victim-cert", exp("reject", "accept"))
 						add("unknown-ca", exp("reject", "accept"))
 						add("wrong-name", exp("reject", "accept"))
 						add("expired", exp("reject", "accept"))
@@ -233,9 +256,9 @@ func vfC03Rows() []vfC03Row {
 				case RequireAnyClientCert:
 					table = map[string]string{"none": "reject", "valid": "accept", "unknown-ca": "accept", "expired": "accept", "stolen-chain-own-key": "reject", "omit-certificate-verify": "reject", "omit-certificate": "reject"}
 				case VerifyClientCertIfGiven:
-					table = map[string]string{"none": "accept", "valid": "accept", "unknown-ca": "reject", "expired": "reject", "stolen-chain-own-key": "reject", "omit-certificate-verify": "reject"}
+					table = map[string]string{"none": "accept", "valid": "accept", "unknown-ca": "reject", "expired": "reject", "stolen-chain-own-key": "reject", "omit-certificate-verify": "reject", "own-selfsigned-leaf-plus-victim-cert": "reject"}
 				case RequireAndVerifyClientCert:
-					table = map[string]string{"none": "reject", "valid": "accept", "unknown-ca": "reject", "expired": "reject", "stolen-chain-own-key": "reject", "omit-certificate-verify": "reject", "omit-certificate": "reject"}
+					table = map[string]string{"none": "reject", "valid": "accept", "unknown-ca": "reject", "expired": "reject", "stolen-chain-own-key": "reject", "omit-certificate-verify": "reject", "omit-certificate": "reject", "own-selfsigned-leaf-plus-victim-cert": "reject"}
 				}
 				for dev, e := range table {
 					ks := []string{"ecdsa"}
@@ -317,6 +340,8 @@ func vfC03Run(t *testing.T, res *vfResult, row vfC03Row) {
 				serverCert = pki.Leaf("ecdsa", "server-expired")
 			case "stolen-chain-own-key":
 				serverCert = vfStolenChain(serverCert)
+			case "own-selfsigned-leaf-plus-victim-cert":
+				serverCert = vfOwnLeafPlusVictimCert(serverCert, vfServerName)
 			case "omit-certificate":
 				script.Omit[handshake.TypeCertificate] = true
 			case "omit-server-key-exchange":
@@ -337,6 +362,8 @@ func vfC03Run(t *testing.T, res *vfResult, row vfC03Row) {
 				clientCert = pki.Leaf("ecdsa", "client-expired")
 			case "stolen-chain-own-key":
 				clientCert = vfStolenChain(clientCert)
+			case "own-selfsigned-leaf-plus-victim-cert":
+				clientCert = vfOwnLeafPlusVictimCert(clientCert, "vf.client.example")
 			case "omit-certificate-verify":
 				script.Omit[handshake.TypeCertificateVerify] = true
 			case "omit-certificate":
